@@ -575,6 +575,13 @@ func (w *World) codeFields(o *Obs, st *Step, fields map[string]string, secVal st
 	}
 	switch st.Sec.Kind {
 	case "recovery":
+		if st.str("as") == "code" {
+			// a recovery code typed into the code field
+			fields["code"] = secVal
+			v := secVal
+			o.raters = append(o.raters, func() Presented { return w.rate("code", "sms", v) })
+			return
+		}
 		fields["recovery_code"] = secVal
 		{
 			v := secVal
